@@ -178,6 +178,14 @@ def _contains(term, pred):
     return False
 
 
+def _stale(term):
+    if term == ('kindvar',):
+        return ('kindvar-of-an-earlier-iteration',)
+    if isinstance(term, tuple):
+        return tuple(_stale(t) if isinstance(t, tuple) else t for t in term)
+    return term
+
+
 class _Walk(Flow):
     """state = (kind, env) ; env = frozenset of (local name, provenance term)"""
 
@@ -414,7 +422,8 @@ class _Walk(Flow):
         env = dict(st[1])
         self.sh.states += 1
         if id(node) in self.kind_loops:
-            st = self._unbind((None, st[1]), self.sc.loop_local(node))
+            # a value that survives from an earlier iteration was made from that iteration's kind, not this one
+            st = self._unbind((None, frozenset((k, _stale(v)) for k, v in st[1])), self.sc.loop_local(node))
             val = ('kindvar',)
         else:
             val = ('elem', self.term(node.iter, env))
@@ -597,15 +606,15 @@ def _rule1(ctx, rep, sh):
         'every local name used by _walk (and the helpers it inlines) is bound in the same iteration of the factory-kind '
         'loop that uses it, on every path (definite assignment; names bound only inside the kind loop do not survive an '
         'iteration; a for-target leaves scope when its loop is exhausted)',
-        floor=4,
+        floor=12,
         breaks='a package offering only a regression raises NameError inside every walking rule and a compliant package '
         'is rejected; with another kind present the stale object of that kind is inspected instead and an ill-typed or '
         'unresolvable reference of the regression is accepted',
     ) as r:
-        kinds = _factory_kinds(ctx.prog)
-        for k in kinds:
-            if k in sh.kinds_seen:
-                r.instance()
+        # instances: distinct locals with a use (22 read today: 11 parameters, fargs, mod, e, f, bot, a, ref, sv, i, m, r);
+        # the floor is what no refactoring can remove: the 11 parameters and the kind variable
+        r.instance(len({(q, name) for (q, _k, name) in sh.uses}))
+        r.extra['kinds_dispatched'] = sorted(sh.kinds_seen)
         r.extra['interpreter_steps'] = sh.walk.visited
         r.extra['functions_interpreted'] = sorted(sh.interps)
         for (q, kind, name), (bound, node, fn) in sorted(sh.uses.items(), key=lambda kv: kv[0]):
@@ -631,7 +640,11 @@ def _rule1(ctx, rep, sh):
                         where(it.func, n),
                         f'use of {n.id} in `{norm(it._stmt_of(n))[:70]}` was not reached by the interpreter (dead or not understood)',
                     )
+        seen = set()
         for fn, node, text in sh.unknown:
+            if (fn.qname, norm(node)) in seen:
+                continue
+            seen.add((fn.qname, norm(node)))
             r.fail(f'{fn.qname}:not-understood:{norm(node)[:60]}', where(fn, node), text)
 
 
@@ -1569,25 +1582,29 @@ def _rule2(ctx, rep):
         vr = prog.func(MOD + '.verify')
         rep.analysed(vr)
         r.instance()
-        spawn = vr.params()[-1] if vr.params() else None
+        spawn = 'spawn' if 'spawn' in vr.params() else (vr.params()[-1] if vr.params() else None)
         rets = [n for n in vr.own_nodes() if isinstance(n, ast.Return)]
-        ok = bool(rets) and spawn == 'spawn'
-        cmd_ok = False
+        ok = bool(rets)
         for n in rets:
             v = n.value
-            if not (isinstance(v, ast.Call) and isinstance(v.func, ast.Name) and v.func.id == spawn and len(v.args) == 1):
+            if not (isinstance(v, ast.Call) and isinstance(v.func, ast.Name) and v.func.id == spawn and len(v.args) == 1 and not v.keywords):
                 ok = False
                 continue
-            lits = []
             arg = v.args[0]
-            srcs = [arg] if not isinstance(arg, ast.Name) else [
-                x.value for x in vr.own_nodes() if isinstance(x, ast.Assign) and any(isinstance(t, ast.Name) and t.id == arg.id for t in x.targets)
-            ]
-            for s in srcs:
-                if isinstance(s, (ast.List, ast.Tuple)):
-                    lits = [x.value if isinstance(x, ast.Constant) else None for x in s.elts]
-            cmd_ok = any(a == '-m' and b == MOD for a, b in zip(lits, lits[1:]))
-            ok = ok and cmd_ok
+            srcs = [arg]
+            if isinstance(arg, ast.Name):  # everything that flows into the command list
+                for x in vr.own_nodes():
+                    if isinstance(x, (ast.Assign, ast.AugAssign)) and any(
+                        isinstance(t, ast.Name) and t.id == arg.id for t in (x.targets if isinstance(x, ast.Assign) else [x.target])
+                    ):
+                        srcs.append(x.value)
+                    elif (
+                        isinstance(x, ast.Call) and isinstance(x.func, ast.Attribute) and isinstance(x.func.value, ast.Name)
+                        and x.func.value.id == arg.id and x.func.attr in ('append', 'extend', 'insert')
+                    ):
+                        srcs += list(x.args)
+            consts = {c.value for s_ in srcs for c in ast.walk(s_) if isinstance(c, ast.Constant) and isinstance(c.value, str)}
+            ok = ok and '-m' in consts and MOD in consts
         r.check(
             ok, f'{vr.qname}:returns-spawn', where(vr), 'returns spawn([... -m dawgie.tools.compliant ...])',
             'verify does not return the result of spawning `-m dawgie.tools.compliant` on every path: the verdict of the check is replaced',
@@ -1822,7 +1839,10 @@ VARIANTS = [
     V('automatic rebases ops before the gate', 'B', _S, 'automatic', 'status = auto_merge_compliant(changeset, repo, spawn)', "git_execute(g, f'git rebase {stable} {ops}')\n        status = auto_merge_compliant(changeset, repo, spawn)", 'R-C16-2'),
     V('automatic continues on FAILED', 'B', _S, 'automatic', 'status = auto_merge_compliant(changeset, repo, spawn) if status == State.FAILED:', 'status = auto_merge_compliant(changeset, repo, spawn)\n        if status == State.SUCCESS:', 'R-C16-2'),
     V('finally block resets the ops branch', 'B', _S, 'automatic', "finally: git_execute(g, f'git checkout {ops}')", "finally:\n        git_execute(g, f'git checkout -B {ops}')", 'R-C16-2'),
+    V('task branch also taken for regressions', 'B', _C, '_walk', 'elif e == dawgie.Factories.task:', 'elif e in (dawgie.Factories.task, dawgie.Factories.regress):', 'R-C16-3'),
+    V('no exit status when the verdict is False', 'B', _C, None, 'if PASSED: sys.exit(0) else: sys.exit(-1)', 'if PASSED:\n        sys.exit(0)', 'R-C16-2'),
     # ---- benign
+    V('rule call without try (an exception ends the process)', 'N', _C, '_verify', "try: status = getattr(dawgie.tools.compliant, r)(t) except: # noqa: E722 logging.exception('Could not process %s', r)", 'status = getattr(dawgie.tools.compliant, r)(t)', None),
     V('walk branches factored into one helper with the accessor as a parameter', 'N', _C, '_walk', _WALK_LOOP_FIXED, _WALK_LOOP_HELPER, None),
     V('local rename and intermediate list in the analysis branch', 'N', _C, '_walk', 'for sv in a.state_vectors(): ifsv(sv) for i in sv.items(): ifv(i)', 'vectors = list(a.state_vectors())\n                for vec in vectors:\n                    ifsv(vec)\n                    for item in vec.items():\n                        ifv(item)', None),
     V('task branch visits both reference lists in one loop', 'N', _C, '_walk', 'for ref in a.feedback(): ifref(ref) for ref in a.previous(): ifref(ref)', 'for ref in a.feedback() + a.previous():\n                    ifref(ref)', None, occurrence=0),
